@@ -124,15 +124,15 @@ def finishPrepare (S : Scheme) (n : Record) (pk : S.PK) (sizeCheck : Bool) (ret 
       | .ok () => .ok ⟨n1, ret⟩
 
 /-- `insert_raw_rlp` up to the signing call -/
-def prepInsertRaw (S : Scheme) (r : Record) (key raw : Bytes) (pk : S.PK) (mkRet : Option Bytes → Ret) :
-    Except EnrErr Prepared :=
+def prepInsertRaw (S : Scheme) (r : Record) (key raw : Bytes) (pk : S.PK) (chk : Bool)
+    (mkRet : Option Bytes → Ret) : Except EnrErr Prepared :=
   match checkReserved key raw with
   | .error e => .error e
   | .ok () =>
     let prev := Map.lookup r.content key
     let c1 := Map.insert r.content key raw
     let n := { r with content := withPubkey S c1 pk }
-    finishPrepare S n pk true (mkRet prev)
+    finishPrepare S n pk chk (mkRet prev)
 
 /-- `remove_key` up to the signing call -/
 def prepRemoveKey (S : Scheme) (r : Record) (key : Bytes) (pk : S.PK) : Except EnrErr Prepared :=
@@ -172,15 +172,15 @@ def prepRemoveInsert (S : Scheme) (r : Record) (rm : List Bytes) (ins : List (By
     finishPrepare S n pk false (mkRet removed inserted)
 
 /-- `set_socket` up to the signing call -/
-def prepSetSocket (S : Scheme) (r : Record) (ip : Bytes) (port : Nat) (isTcp : Bool) (pk : S.PK) :
-    Except EnrErr Prepared :=
+def prepSetSocket (S : Scheme) (r : Record) (ip : Bytes) (port : Nat) (isTcp : Bool) (pk : S.PK)
+    (chk : Bool) : Except EnrErr Prepared :=
   let c2 :=
     if ip.length = 4 then
       Map.insert (Map.insert r.content kIp (encBytes ip)) (if isTcp then kTcp else kUdp) (encUint port)
     else
       Map.insert (Map.insert r.content kIp6 (encBytes ip)) (if isTcp then kTcp6 else kUdp6) (encUint port)
   let n := { r with content := withPubkey S c2 pk }
-  finishPrepare S n pk true .unit
+  finishPrepare S n pk chk .unit
 
 def prevPort (v : Option Bytes) : Ret :=
   .prevPort (match v with
@@ -196,23 +196,25 @@ def prevIp (n : Nat) (v : Option Bytes) : Ret :=
       | .ok (ip, _) => some ip
       | .error _ => none)
 
-/-- Everything an update does before it asks the signer for a signature. -/
-def prepare (S : Scheme) (r : Record) (op : Op S) (pk : S.PK) : Except EnrErr Prepared :=
+/-- Everything an update does before it asks the signer for a signature.  `chk = true` is the
+    code as it is; `chk = false` skips the size check that `insert_raw_rlp` and `set_socket` make
+    before signing (used to state what the result of an update *would be*). -/
+def prepareG (S : Scheme) (r : Record) (op : Op S) (pk : S.PK) (chk : Bool) : Except EnrErr Prepared :=
   match op with
   | .setSeq seq =>
     let n := { r with seq := seq, content := withPubkey S r.content pk }
     match preSign S n pk with
     | .error e => .error e
     | .ok () => .ok ⟨n, .unit⟩
-  | .insert key v => prepInsertRaw S r key v.enc pk .prevRaw
-  | .insertRaw key raw => prepInsertRaw S r key raw pk .prevRaw
+  | .insert key v => prepInsertRaw S r key v.enc pk chk .prevRaw
+  | .insertRaw key raw => prepInsertRaw S r key raw pk chk .prevRaw
   | .setIp ip =>
-    if ip.length = 4 then prepInsertRaw S r kIp (encBytes ip) pk (prevIp 4)
-    else prepInsertRaw S r kIp6 (encBytes ip) pk (prevIp 16)
-  | .setUdp4 p => prepInsertRaw S r kUdp (encUint p) pk prevPort
-  | .setUdp6 p => prepInsertRaw S r kUdp6 (encUint p) pk prevPort
-  | .setTcp4 p => prepInsertRaw S r kTcp (encUint p) pk prevPort
-  | .setTcp6 p => prepInsertRaw S r kTcp6 (encUint p) pk prevPort
+    if ip.length = 4 then prepInsertRaw S r kIp (encBytes ip) pk chk (prevIp 4)
+    else prepInsertRaw S r kIp6 (encBytes ip) pk chk (prevIp 16)
+  | .setUdp4 p => prepInsertRaw S r kUdp (encUint p) pk chk prevPort
+  | .setUdp6 p => prepInsertRaw S r kUdp6 (encUint p) pk chk prevPort
+  | .setTcp4 p => prepInsertRaw S r kTcp (encUint p) pk chk prevPort
+  | .setTcp6 p => prepInsertRaw S r kTcp6 (encUint p) pk chk prevPort
   | .removeUdp4 => prepRemoveKey S r kUdp pk
   | .removeUdp6 => prepRemoveKey S r kUdp6 pk
   | .removeTcp => prepRemoveKey S r kTcp pk
@@ -221,9 +223,9 @@ def prepare (S : Scheme) (r : Record) (op : Op S) (pk : S.PK) : Except EnrErr Pr
     let l := match build with
       | none => [name, version]
       | some b => [name, version, b]
-    prepInsertRaw S r kClient (Val.strs l).enc pk (fun _ => .unit)
-  | .setUdpSocket ip port => prepSetSocket S r ip port false pk
-  | .setTcpSocket ip port => prepSetSocket S r ip port true pk
+    prepInsertRaw S r kClient (Val.strs l).enc pk chk (fun _ => .unit)
+  | .setUdpSocket ip port => prepSetSocket S r ip port false pk chk
+  | .setTcpSocket ip port => prepSetSocket S r ip port true pk chk
   | .removeUdpSocket => prepRemoveInsert S r [kIp, kUdp] [] pk (fun _ _ => .unit)
   | .removeUdp6Socket => prepRemoveInsert S r [kIp6, kUdp6] [] pk (fun _ _ => .unit)
   | .removeTcpSocket => prepRemoveInsert S r [kIp, kTcp] [] pk (fun _ _ => .unit)
@@ -231,7 +233,11 @@ def prepare (S : Scheme) (r : Record) (op : Op S) (pk : S.PK) : Except EnrErr Pr
   | .removeKey key => prepRemoveKey S r key pk
   | .removeInsert rm ins => prepRemoveInsert S r rm ins pk .prevLists
   | .setPublicKey pk' =>
-    prepInsertRaw S r (S.enrKey pk') (encBytes (S.encodePub pk')) pk (fun _ => .unit)
+    prepInsertRaw S r (S.enrKey pk') (encBytes (S.encodePub pk')) pk chk (fun _ => .unit)
+
+/-- the code as it is -/
+def prepare (S : Scheme) (r : Record) (op : Op S) (pk : S.PK) : Except EnrErr Prepared :=
+  prepareG S r op pk true
 
 /-- The payload the signer is asked to sign, when the update gets that far. -/
 def signRequest (S : Scheme) (r : Record) (op : Op S) (pk : S.PK) : Option Bytes :=
